@@ -462,6 +462,9 @@ func TestC08CasterFree(t *testing.T) {
 				sy[i] = append(sy[i], rapid.IntRange(0, 4).Draw(t, "sy"))
 			}
 		}
+		raceRounds := rapid.SampledFrom([]int{0, 0, 40, 150}).Draw(t, "raceRounds")
+		raceSpinR := rapid.IntRange(0, 12).Draw(t, "raceSpinR")
+		raceSpinS := rapid.IntRange(0, 12).Draw(t, "raceSpinS")
 		hookY := map[int]int{
 			bigbuff.VerifCasterArmed:    rapid.SampledFrom([]int{0, 0, 1, 3, 10}).Draw(t, "hookArmed"),
 			bigbuff.VerifCasterNegAdded: rapid.SampledFrom([]int{0, 0, 1, 3, 10}).Draw(t, "hookNeg"),
@@ -472,7 +475,7 @@ func TestC08CasterFree(t *testing.T) {
 			}
 		})
 		defer bigbuff.VerifSetHook(nil)
-		trace := []string{fmt.Sprintf("recv=%v", rs), fmt.Sprintf("send=%v hooks=%v", sy, hookY)}
+		trace := []string{fmt.Sprintf("recv=%v", rs), fmt.Sprintf("send=%v hooks=%v raceLane=%dx(spinR=%d,spinS=%d)", sy, hookY, raceRounds, raceSpinR, raceSpinS)}
 		vkit.CaseStart(func() string { return strings.Join(trace, " ; ") })
 
 		var (
@@ -567,6 +570,55 @@ func TestC08CasterFree(t *testing.T) {
 			wgR.Wait()
 			if n := x.Add(0); n != 0 {
 				vkit.Fail(t, "C08/count-at-end", "Add(0)=%d after every receiver finished\ncase: %v", n, trace)
+			}
+			// ---- race lane: many barrier-synchronised two-party races between a Send and the deregistration of the
+			// only registered receiver (spin offsets drawn per case). Whoever wins, the Send must return 0 (the copy, if
+			// any, is absorbed), the count must be back to 0 and the next registration must go through.
+			if raceRounds > 0 {
+				var phase atomic.Int64
+				var rwg sync.WaitGroup
+				spin := func(n int) {
+					for i := 0; i < n; i++ {
+						_ = phase.Load()
+					}
+				}
+				wait := func(v int64) {
+					for phase.Load() != v {
+						runtime.Gosched()
+					}
+				}
+				rwg.Add(2)
+				go func() {
+					defer rwg.Done()
+					defer guard("race receiver")
+					for i := 0; i < raceRounds; i++ {
+						x.Add(1)
+						phase.Store(int64(3*i + 1))
+						wait(int64(3*i + 2))
+						spin(raceSpinR * (i % 4))
+						x.Add(-1)
+						wait(int64(3*i + 3))
+					}
+				}()
+				go func() {
+					defer rwg.Done()
+					defer guard("race sender")
+					for i := 0; i < raceRounds; i++ {
+						wait(int64(3*i + 1))
+						phase.Store(int64(3*i + 2))
+						spin(raceSpinS * (i % 3))
+						if n := x.Send(-1 - i); n != 0 {
+							mu.Lock()
+							panics = append(panics, fmt.Sprintf("race lane round %d: Send returned %d although its only receiver deregistered without receiving", i, n))
+							mu.Unlock()
+						}
+						for x.Add(0) != 0 { // the deregistration may still be absorbing
+							runtime.Gosched()
+						}
+						phase.Store(int64(3*i + 3))
+					}
+				}()
+				rwg.Wait()
 			}
 		})
 		if len(panics) > 0 {
